@@ -104,6 +104,21 @@ func checkVerify(c sigCase) (h.Info, error) {
 			return info, fmt.Errorf("Verify modified the caller's buffer (layout %d)", layout)
 		}
 	}
+	// framing: right after an accepting call, the same bytes with the message/signature boundary moved
+	// (a longer or shorter "signature") are a different triple and are judged on their own
+	if got && len(c.Sig) == 64 {
+		all := append(append([]byte{}, c.Msg...), c.Sig...)
+		for _, n := range []int{len(c.Msg) - 1, len(c.Msg) - 32, len(c.Msg) + 1, len(c.Msg) + 32, 0} {
+			if n < 0 || n > len(all) || n == len(c.Msg) {
+				continue
+			}
+			m2, s2 := all[:n:n], all[n:]
+			w2, _ := ed.VerifyZIP215(c.PK, m2, s2)
+			if g2 := ed25519.Verify(ed25519.PublicKey(c.PK), m2, s2); g2 != w2 {
+				return info, fmt.Errorf("after Verify(pk=%x, msg=%x, sig=%x) = true: Verify(pk, msg'=%x, sig'=%x) (same bytes, message/signature boundary moved to %d) = %v, ZIP-215 reference = %v", []byte(c.PK), []byte(c.Msg), []byte(c.Sig), m2, s2, n, g2, w2)
+			}
+		}
+	}
 	// everything crypto/ed25519 accepts is accepted
 	if len(c.Sig) == 64 && stded.Verify(stded.PublicKey(c.PK), c.Msg, c.Sig) && !got {
 		return info, fmt.Errorf("crypto/ed25519 accepts (pk=%x, msg=%x, sig=%x) but Verify rejects", []byte(c.PK), []byte(c.Msg), []byte(c.Sig))
@@ -300,6 +315,65 @@ func TestVerify(t *testing.T) {
 		Require: []string{"honest/accept", "torsion/accept", "noncanonical/accept", "stdlib/accept", "torsion+S+jL/reject-S>=L", "honest+S+jL/reject-S>=L",
 			"honest+flip-S/reject-equation", "torsion+flip-pk/reject-A-decode", "honest+flip-R/reject-R-decode", "honest+siglen/reject-length", "random/reject-S>=L"},
 		Rule: "triples built from known scalars on an independent curve model: honest, A=aB+Ti / R=rB+Tj for all torsion pairs in every encoding (canonical, y+p, negative zero), small-order A and/or R, crypto/ed25519 signatures, then one mutation (S+jL j=1..15, bit flips in key/R/S/message, S top bits, signature length 0..70, message length, swapped halves, negated/off-curve key), plus random bytes; Verify must equal the literal ZIP-215 predicate evaluated on the model; non-trivial = not random bytes and (verdict decided by the group equation, or an S>=L / torsion / non-canonical case); distinct by triple",
+	})
+}
+
+// ---- concurrent callers ----
+
+type concCase struct {
+	Cases []sigCase `json:"cases"`
+	Iters int       `json:"iters"`
+}
+
+func checkConcurrent(c concCase) (h.Info, error) {
+	want := make([]bool, len(c.Cases))
+	acc := 0
+	for i, sc := range c.Cases {
+		if len(sc.PK) != 32 {
+			return h.Info{Class: "bad-case"}, fmt.Errorf("PRECONDITION: public key length")
+		}
+		want[i], _ = ed.VerifyZIP215(sc.PK, sc.Msg, sc.Sig)
+		if want[i] {
+			acc++
+		}
+	}
+	info := h.Info{Class: fmt.Sprintf("goroutines=%d", len(c.Cases)), NT: acc > 0 && acc < len(c.Cases)}
+	if acc == len(c.Cases) {
+		info.Class += "/all-accept"
+	} else if acc > 0 {
+		info.Class += "/mixed"
+	}
+	err := h.Parallel(len(c.Cases), func(g int) error {
+		sc := c.Cases[g]
+		pk, msg, sig := append([]byte{}, sc.PK...), append([]byte{}, sc.Msg...), append([]byte{}, sc.Sig...)
+		for it := 0; it < c.Iters; it++ {
+			if got := ed25519.Verify(ed25519.PublicKey(pk), msg, sig); got != want[g] {
+				return fmt.Errorf("Verify(pk=%x, msg=%x, sig=%x) [%s] = %v in goroutine %d (iteration %d) while %d other goroutines verify their own triples, ZIP-215 reference = %v", pk, msg, sig, sc.Kind, got, g, it, len(c.Cases)-1, want[g])
+			}
+		}
+		return nil
+	})
+	return info, err
+}
+
+func TestConcurrent(t *testing.T) {
+	h.Run(t, h.Sub[concCase]{
+		Prop: "C01", Name: "concurrent-callers", N: 60,
+		Gen: func(t *rapid.T) concCase {
+			n := h.OneOf(t, "g", 2, 4, 8, 16)
+			c := concCase{Iters: 40}
+			for i := 0; i < n; i++ {
+				if rapid.Bool().Draw(t, "honest") {
+					c.Cases = append(c.Cases, genBase(t))
+				} else {
+					c.Cases = append(c.Cases, genVerify(t))
+				}
+			}
+			return c
+		},
+		Check:   checkConcurrent,
+		Require: []string{"goroutines=8/mixed", "goroutines=2/mixed"},
+		Rule:    "schedules: 2..16 goroutines released together, each verifying its own generated triple (honest, torsion, mutated, random; own keys) 40 times; every verdict must equal the ZIP-215 reference computed beforehand; non-trivial = accepting and rejecting triples in flight at the same time",
 	})
 }
 
